@@ -198,7 +198,8 @@ PROPS = {
     },
     "C01": {
         "rules": [r_token.access, r_token.dispatch, r_cand.cand, r_cand.unkfall, r_viterbi.traceback,
-                  r_reset.run_tokens, r_panic.run_narrow_dict, r_cand.unkcover, r_panic.run_tok],
+                  r_reset.run_tokens, r_panic.run_narrow_dict, r_cand.unkcover, r_panic.run_tok,
+                  r_misc.spaceopt],
         "explanation": "ACCESS: every Token accessor is a projection of the one stored (end, node) "
                        "pair and the sentence's offset table (ranges, surface, ids, costs, "
                        "feature); DISPATCH: each lexicon type is looked up in its own component "
